@@ -22,7 +22,7 @@ def shifted(diags, at, by):
     return [(lv, c, ln + by if ln >= at else ln, col) for lv, c, ln, col in diags]
 
 
-def rel1(camp, p):
+def rel1(camp, p, eol="\n"):
     if not p.lines or p.lines[0].kind != "hdr" or len(p.lines) < 13 or p.lines[11].kind != "blank" or p.lines[11].lex:
         return   # (a variant that edits the header region itself is not "the same file with a header in front")
     if p.variant and 0 <= p.variant[2] < 12:
@@ -31,6 +31,11 @@ def rel1(camp, p):
     without_t = "".join(ln.text + "\n" for ln in p.lines[12:])
     if not without_t.strip():
         return
+    if eol != "\n":
+        # the file proper written with DOS / old-Mac line ends (content handed over as text is newline-translated by the tool), the header with LF
+        hdr_t = "".join(ln.text + "\n" for ln in p.lines[:12])
+        without_t = without_t.replace("\n", eol)
+        with_t = hdr_t + without_t
     ra, da = D(p.name, without_t)
     rb, db = D(p.name, with_t)
     if ra.status in ("FATAL", "CRASH") or rb.status in ("FATAL", "CRASH"):
@@ -133,7 +138,7 @@ def shard(seed, n):
         if p.variant and p.variant[0] in ("E06", "X02"):
             rel3(camp, p)
             return
-        rel1(camp, p)
+        rel1(camp, p, d.weighted([(6, "\n"), (1, "\r\n"), (1, "\r")]))
         rel2(camp, p, d)
         rel3(camp, p)
         if len(camp.samples) < 3 and camp.evaluations % 17 == 1:
